@@ -89,7 +89,14 @@ def _batch(modname, base_seed, tier, indices, explicit=None):
             for i in indices:
                 seed = derive_seed(base_seed, mod.PROPERTY, i)
                 items.append((i, mod.gen(seed, i, tier)))
+        progdir = os.environ.get("VERIF_PROGRESS_DIR")
+        progfile = os.path.join(progdir, "%d.json" % os.getpid()) if progdir else None
         for i, sc in items:
+            if progfile:
+                # what this worker is about to run: read by the parent if the process freezes in native code
+                with open(progfile + ".tmp", "w") as f:
+                    json.dump({"index": i, "scenario": sc}, f)
+                os.replace(progfile + ".tmp", progfile)
             r = safe_execute(mod, sc)
             out["n"] += 1
             if r.get("harness_error"):
@@ -116,6 +123,11 @@ def _batch(modname, base_seed, tier, indices, explicit=None):
                 out["samples"].append(sc)
     finally:
         harness.cleanup_process_scratch()
+        try:
+            if os.environ.get("VERIF_PROGRESS_DIR"):
+                os.unlink(os.path.join(os.environ["VERIF_PROGRESS_DIR"], "%d.json" % os.getpid()))
+        except OSError:
+            pass
     out["shapes"] = sorted(out["shapes"])
     return out
 
@@ -223,6 +235,18 @@ def replay_file(modname, path):
     mod = _load(modname)
     with open(path) as f:
         rp = json.load(f)
+    if ((rp.get("violation") or {}).get("signature") or {}).get("why") == "no-return":
+        # the recorded run never came back: replay it in a child process under the same wall limit
+        outcome = _run_with_wall_limit(mod, rp["scenario"], rp.get("tape", []), FROZEN_S + 15)
+        if outcome in ("no-return", "returned:4"):
+            print("replayed: %s" % ("the run did not return within %.0f s (child process killed)" % (FROZEN_S + 15)
+                                    if outcome == "no-return" else
+                                    "the server hung inside the run (ended by the simulator's watchdog on this, less "
+                                    "loaded, machine)"))
+            print("VIOLATION property=%s replay=%s" % (mod.PROPERTY, path))
+            return 1
+        print("replay did not reproduce the recorded violation (the run came back: %s)" % outcome)
+        return 0
     r = safe_execute(mod, rp["scenario"], rp.get("tape", []))
     if r.get("harness_error"):
         print("HARNESS-ERROR during replay:", r["harness_error"])
@@ -245,6 +269,77 @@ def _verify_in_fresh_interpreter(modname, path):
     return p.returncode == 1 and "VIOLATION property=" in p.stdout, p.stdout + p.stderr
 
 
+FROZEN_S = float(os.environ.get("VERIF_FROZEN_S", "75"))
+
+
+def _cpu_seconds(pid):
+    try:
+        with open("/proc/%d/stat" % pid) as f:
+            parts = f.read().rsplit(")", 1)[1].split()
+        return (int(parts[11]) + int(parts[12])) / float(os.sysconf("SC_CLK_TCK"))
+    except (OSError, ValueError, IndexError):
+        return None
+
+
+def _frozen_monitor(progdir, stop, found, kill):
+    """A worker that has been inside ONE run for FROZEN_S wall seconds while burning CPU all along is frozen in
+    native code (e.g. a regular expression that backtracks for ever): neither the simulator's watchdog nor the
+    in-process alarm can interrupt that.  The parent records what it was running and kills the pool."""
+    seen = {}
+    while not stop.wait(3.0):
+        try:
+            names = os.listdir(progdir)
+        except OSError:
+            return
+        for n in names:
+            if not n.endswith(".json"):
+                continue
+            path = os.path.join(progdir, n)
+            try:
+                pid = int(n[:-5])
+                mt = os.stat(path).st_mtime
+            except (OSError, ValueError):
+                continue
+            cpu = _cpu_seconds(pid)
+            if cpu is None:
+                continue
+            if pid not in seen or seen[pid][0] != mt:
+                seen[pid] = (mt, cpu, time.time())
+                continue
+            age = time.time() - seen[pid][2]
+            if age > FROZEN_S and cpu - seen[pid][1] > 0.4 * age:
+                try:
+                    with open(path) as f:
+                        found.append(dict(json.load(f), pid=pid, age=age, cpu=cpu - seen[pid][1]))
+                except (OSError, ValueError):
+                    continue
+                kill()
+                return
+
+
+def _run_with_wall_limit(mod, scenario, tape, limit):
+    """Run one scenario in a forked child; returns 'no-return' if it is still running after limit seconds."""
+    pid = os.fork()
+    if pid == 0:
+        code = 0
+        try:
+            r = safe_execute(mod, scenario, tape)
+            code = 3 if r.get("violation") else (2 if r.get("harness_error") else 0)
+            if r.get("violation") and r["violation"].get("oracle") == "bounded-steps":
+                code = 4    # the simulator's own watchdog saw the hang (and could end it)
+        finally:
+            os._exit(code)
+    t0 = time.time()
+    while time.time() - t0 < limit:
+        p, st = os.waitpid(pid, os.WNOHANG)
+        if p:
+            return "returned:%d" % (st >> 8)
+        time.sleep(0.5)
+    os.kill(pid, signal.SIGKILL)
+    os.waitpid(pid, 0)
+    return "no-return"
+
+
 def run_check(modname, tier="quick"):
     mod = _load(modname)
     t0 = time.time()
@@ -265,7 +360,22 @@ def run_check(modname, tier="quick"):
     ctx = mp.get_context("fork")
     truncated = False
     exhaustive_sweep = False
+    import shutil
+    import tempfile
+    import threading
+    progdir = tempfile.mkdtemp(prefix="verif-prog-", dir="/dev/shm" if os.path.isdir("/dev/shm") else None)
+    os.environ["VERIF_PROGRESS_DIR"] = progdir
+    frozen = []
+    mon_stop = threading.Event()
     with cf.ProcessPoolExecutor(max_workers=jobs, mp_context=ctx) as ex:
+        def _kill_pool():
+            for pr in list(getattr(ex, "_processes", {}).values()):
+                try:
+                    pr.kill()
+                except Exception:
+                    pass
+        mon = threading.Thread(target=_frozen_monitor, args=(progdir, mon_stop, frozen, _kill_pool), daemon=True)
+        mon.start()
         futs = []
         for j in range(0, len(sweep), bsize):
             futs.append(ex.submit(_batch, modname, base_seed, tier, None, sweep[j:j + bsize]))
@@ -297,8 +407,25 @@ def run_check(modname, tier="quick"):
                 if len(agg["samples"]) < 3:
                     agg["samples"].extend(r["samples"][: 3 - len(agg["samples"])])
         except (cf.process.BrokenProcessPool, cf.TimeoutError) as e:
-            print("HARNESS-ERROR: worker pool failed: %r" % (e,))
-            return 2
+            mon_stop.set()
+            if not frozen:
+                print("HARNESS-ERROR: worker pool failed: %r" % (e,))
+                shutil.rmtree(progdir, ignore_errors=True)
+                return 2
+            truncated = True
+        finally:
+            mon_stop.set()
+    shutil.rmtree(progdir, ignore_errors=True)
+    os.environ.pop("VERIF_PROGRESS_DIR", None)
+    for fz in frozen:
+        agg["counters"]["worker_frozen_in_native_code"] = agg["counters"].get("worker_frozen_in_native_code", 0) + 1
+        agg["violations"].append({
+            "index": fz.get("index"), "scenario": fz["scenario"], "tape": [], "frozen": True, "digest": "frozen",
+            "violation": {"oracle": "bounded-time",
+                          "signature": {"oracle": "bounded-time", "why": "no-return"},
+                          "detail": "the run did not return: its worker process spent %.0f s inside it, burning %.0f s "
+                                    "of CPU without reaching a scheduling point (frozen in native code); the process "
+                                    "was killed" % (fz["age"], fz["cpu"])}})
     if sweep and not truncated:
         exhaustive_sweep = True
 
@@ -326,7 +453,9 @@ def run_check(modname, tier="quick"):
         if len(new_paths) >= 8:
             extra_sigs = extra_sigs + 1
             continue
-        if len(new_paths) < 3:
+        if v.get("frozen"):
+            sc, tp, vio = v["scenario"], v["tape"], v["violation"]
+        elif len(new_paths) < 3:
             sc, tp, vio = minimise(mod, v["scenario"], v["tape"], v["violation"],
                                    budget_s=float(os.environ.get("VERIF_MIN_S", "45")))
         else:
